@@ -30,6 +30,7 @@ THEOREMS = [
     "Pt.lower_reshape1_correct_C", "Pt.lower_reshape1_correct_F",
     "Pt.groups_valid", "Pt.lower_reshape_correct_C", "Pt.lower_reshape_correct_F",
     "Pt.lower_reshape_total",
+    "Pt.pad_sound",
 ]
 
 
@@ -45,6 +46,7 @@ class LCase:
     il: Any = None
     err: str | None = None
     bind_data: dict = field(default_factory=dict)
+    structural: bool = False   # the model must produce the real expression text, not just its values
 
 
 def _data(shape, off=1, dtype=np.int64):
@@ -257,6 +259,165 @@ def gen_stack_concat(ctx):
                                 axis, " ".join(f"({ser.shape(a.shape)} {ser.vals(a)})" for a in arrs)))
 
 
+def _pad_cvals(r):
+    """pairwise distinct per-axis constants, distinct from the data (1..), so a mix-up shows"""
+    return [(1000 + 10 * d, 1005 + 10 * d) for d in range(r)]
+
+
+def _pad_wire(widths, cvals):
+    w = "(" + " ".join(f"({b} {a})" for b, a in widths) + ")"
+    ce = "(" + " ".join(f"({ser.const(c0)} {ser.const(c1)})" for c0, c1 in cvals) + ")"
+    cv = "(" + " ".join(f"({ser.val(c0)} {ser.val(c1)})" for c0, c1 in cvals) + ")"
+    return w, ce, cv
+
+
+def gen_pad(ctx):
+    """pt.pad, constant mode: every shape x every (before, after) per axis in the bounded scope (zero-size
+    axes, zero widths, asymmetric widths), per-axis constants; plus the other spellings of
+    pad_width / constant_values"""
+    import pytato as pt
+    scopes = [(1, range(0, 4), range(0, 4)), (2, range(0, 3), range(0, 3)), (3, range(0, 3), range(0, 2))]
+    if ctx.thorough:
+        scopes = [(1, range(0, 5), range(0, 5)), (2, range(0, 4), range(0, 3)), (3, range(0, 3), range(0, 3))]
+    for r, lens, ws in scopes:
+        for s in itertools.product(lens, repeat=r):
+            a = _data(s)
+            x = _ph("x", s)
+            for flat in itertools.product(ws, repeat=2 * r):
+                widths = [(flat[2 * d], flat[2 * d + 1]) for d in range(r)]
+                cvals = _pad_cvals(r)
+                w, ce, cv = _pad_wire(widths, cvals)
+                lens_w = "(" + " ".join(str(n) for n in s) + ")"
+                yield LCase("pad", {"shape": s, "widths": widths, "cvals": cvals},
+                            pt.pad(x, widths, constant_values=cvals), {"x": a},
+                            np.pad(a, widths, constant_values=cvals),
+                            f"(lower pad {lens_w} {w} {ce})",
+                            f"(spec pad {w} {cv} {ser.shape(s)} {ser.vals(a)})", structural=True)
+    # other spellings: int width, (before, after) for all axes, default / scalar / pair constants
+    s = (2, 3)
+    a = _data(s)
+    x = _ph("x", s)
+    for pw, norm_w in [(1, [(1, 1)] * 2), ((2, 1), [(2, 1)] * 2), ([(0, 2), (1, 0)], [(0, 2), (1, 0)])]:
+        for kw, norm_c in [({}, [(0, 0)] * 2), ({"constant_values": 7}, [(7, 7)] * 2),
+                           ({"constant_values": (7, 9)}, [(7, 9)] * 2),
+                           ({"constant_values": [(7, 9), (True, False)]}, [(7, 9), (True, False)])]:
+            w, ce, cv = _pad_wire(norm_w, norm_c)
+            yield LCase("pad", {"shape": s, "pad_width": pw, "kwargs": repr(kw)},
+                        pt.pad(x, pw, **kw), {"x": a}, np.pad(a, pw, **kw),
+                        f"(lower pad (2 3) {w} {ce})",
+                        f"(spec pad {w} {cv} {ser.shape(s)} {ser.vals(a)})", structural=True)
+
+
+def pad_symbolic(ctx, prop="C02"):
+    """pt.pad of arrays with SYMBOLIC axis lengths: the real expression must be the model's text
+    (upper guards = the bindings in_1, in_2, ...), the real bindings must evaluate to axis_len + before,
+    the real shape to axis_len + before + after, and at every size 0..4 the expression must evaluate to
+    np.pad without an out-of-bounds access."""
+    import pytato as pt
+    from ..refeval import evaluate
+    n, m = pt.make_size_param("n"), pt.make_size_param("m")
+    top = 6 if ctx.thorough else 4
+    shapes_sym = [("(n,3)", (n, 3), lambda a, b: (a, 3), (True, False)),
+                  ("(3,n)", (3, n), lambda a, b: (3, a), (False, True)),
+                  ("(n,m)", (n, m), lambda a, b: (a, b), (True, True)),
+                  ("(n+1,2*n)", (n + 1, 2 * n), lambda a, b: (a + 1, 2 * a), (True, True))]
+    width_sets = [[(0, 0), (0, 0)], [(1, 2), (0, 1)], [(2, 0), (3, 1)], [(0, 3), (1, 0)], [(1, 1), (2, 2)],
+                  [(0, 2), (0, 0)], [(3, 1), (1, 3)]]
+    cases = dis = evals = 0
+    queries, owners = [], []
+    for sname, sshape, conc, symmask in shapes_sym:
+        x = pt.make_placeholder("x", sshape, np.int64)
+        for widths in width_sets:
+            cvals = _pad_cvals(2)
+            cases += 1
+            real = pt.pad(x, widths, constant_values=cvals)
+            params = {"shape": sname, "widths": widths, "cvals": cvals}
+            w, ce, _ = _pad_wire(widths, cvals)
+            lens_w = "(" + " ".join("?" if sy else str(int(d)) for d, sy in zip(sshape, symmask)) + ")"
+            try:
+                expr_s = ser.sexpr(real.expr)
+            except ser.SerError as e:
+                ctx.broken.append(f"serialiser:pad-symbolic:{e}")
+                dis += 1
+                continue
+            # bindings: in_0 = x, then one per symbolic axis in axis order
+            names = sorted(real.bindings)
+            sym_axes = [d for d, sy in enumerate(symmask) if sy]
+            exp_names = ["in_0"] + [f"in_{k + 1}" for k in range(len(sym_axes))]
+            bad = None
+            if names != exp_names or real.bindings["in_0"] is not x:
+                bad = f"bindings {names} (expected {exp_names}, in_0 = the operand)"
+            sizes_all = [(a, b) for a in range(top + 1) for b in (range(top + 1) if sname == "(n,m)" else [0])]
+            if bad is None:
+                for a, b in sizes_all:
+                    sz = {"n": a, "m": b}
+                    cs = conc(a, b)
+                    for k, d in enumerate(sym_axes):
+                        got = int(evaluate(real.bindings[f"in_{k + 1}"], sizes=sz))
+                        if got != cs[d] + widths[d][0]:
+                            bad = f"binding in_{k + 1} = {got} at {sz}, expected axis_len + before = {cs[d] + widths[d][0]}"
+                    shp = tuple(int(evaluate(c, sizes=sz)) if not isinstance(c, int) else c for c in real.shape)
+                    if shp != tuple(cs[d] + widths[d][0] + widths[d][1] for d in range(2)):
+                        bad = f"shape {shp} at {sz}"
+                    if bad:
+                        break
+            if bad:
+                dis += 1
+                if prop == "C02":
+                    ctx.violation("lower:pad:symbolic-bindings", f"pt.pad of x{sname}, widths {widths}: {bad}",
+                                  {"kind": "pad-symbolic", "params": params, "detail": bad})
+                if names != exp_names:
+                    continue
+                # the evaluations below use the REAL bindings' values, so a wrong bound shows as a
+                # wrong value / an out-of-bounds access as well
+            queries.append(f"(lower pad {lens_w} {w} {ce})")
+            owners.append(("text", params, expr_s, None, None))
+            for a, b in sizes_all:
+                cs = conc(a, b)
+                data = _data(cs)
+                binds = {"in_0": data}
+                for k, d in enumerate(sym_axes):
+                    binds[f"in_{k + 1}"] = np.asarray(
+                        int(evaluate(real.bindings[f"in_{k + 1}"], sizes={"n": a, "m": b})), dtype=np.int64)
+                out_shape = tuple(cs[d] + widths[d][0] + widths[d][1] for d in range(2))
+                bs = " ".join(ser.binding(nm, arr) for nm, arr in sorted(binds.items()))
+                queries.append(f"(evalil {ser.shape(out_shape)} {expr_s} ({bs}))")
+                owners.append(("eval", params, expr_s, {"n": a, "m": b},
+                               np.pad(data, widths, constant_values=cvals)))
+    ans = common.driver_query_parallel(queries)
+    for (what, params, expr_s, sz, exp), a in zip(owners, ans):
+        if what == "text":
+            if a != "ok " + expr_s:
+                dis += 1
+                if prop == "C02":
+                    ctx.broken.append(f"correspondence:model-expr-text:pad-symbolic:{params}")
+            continue
+        evals += 1
+        parts = ser.split_top(a)
+        if parts[0] != "ok":
+            dis += 1
+            ctx.broken.append(f"lean-evalil:pad-symbolic:{a[:60]}")
+            continue
+        got = ser.parse_vals(parts[1])
+        nbad = int(parts[4])
+        if nbad:
+            dis += 1
+            ctx.violation("oob:index-lambda:pad" if prop == "C11" else "lower:pad:out-of-bounds",
+                          f"pt.pad of x{params['shape']}, widths {params['widths']}: at sizes {sz} the index lambda "
+                          f"reads in_0 out of bounds ({nbad} accesses, first {parts[5]})",
+                          {"kind": "pad-symbolic", "params": params, "sizes": sz, "expr": expr_s,
+                           "first_oob": parts[5]})
+        elif got != [int(v) for v in exp.reshape(-1).tolist()] and prop == "C02":
+            dis += 1
+            ctx.violation("lower:pad:value-mismatch",
+                          f"pt.pad of x{params['shape']}, widths {params['widths']}: at sizes {sz} the index lambda "
+                          "differs from np.pad",
+                          {"kind": "pad-symbolic", "params": params, "sizes": sz, "expr": expr_s,
+                           "observed": got, "expected": exp.tolist()})
+    ctx.note_batch("pad-symbolic-axis-lengths", cases, dis, exhaustive=False, evaluations=evals,
+                   sizes=f"n, m in 0..{top}", shapes=[s[0] for s in shapes_sym])
+
+
 def gen_advanced(ctx):
     """advanced indexing, contiguous and non-contiguous, broadcast index arrays,
     scalars mixed in, negative entries (random, seeded); oracle = NumPy fancy indexing"""
@@ -399,7 +560,7 @@ def gen_csr(ctx):
                     np.asarray(expected))
 
 
-GENS = [gen_slice1d, gen_roll, gen_transpose, gen_reshape, gen_basic_nd, gen_stack_concat,
+GENS = [gen_slice1d, gen_roll, gen_transpose, gen_reshape, gen_basic_nd, gen_stack_concat, gen_pad,
         gen_advanced, gen_einsum, gen_csr]
 
 
@@ -516,6 +677,7 @@ def process(ctx, cases: list[LCase]):
         if mexpr == "none":
             s["model_none"] = True
             continue
+        s["mexpr"] = mexpr
         binds = " ".join(ser.binding(n, arr) for n, arr in sorted(c.bind_data.items()))
         slot2[ci] = len(q2)
         q2.append(f"(evalil {ser.shape(c.il.shape)} {mexpr} ({binds}))")
@@ -554,6 +716,9 @@ def process(ctx, cases: list[LCase]):
                 n_dis += 1
                 # the real code agrees with NumPy here, so the *model* deviates from the code
                 ctx.broken.append(f"correspondence:model-vs-real:{c.kind}:{c.params}")
+            elif c.structural and s.get("mexpr") != ser.sexpr(c.il.expr):
+                n_dis += 1
+                ctx.broken.append(f"correspondence:model-expr-text:{c.kind}:{c.params}")
         if "spec" in s:
             sp = ser.split_top(answers[s["spec"]])
             ok = (sp[0] == "ok" and ser.parse_vals(sp[2]) == exp_flat
@@ -588,9 +753,10 @@ def run(ctx: common.Ctx):
                 chunk = []
         if chunk:
             dis += process(ctx, chunk)
-        exhaustive = name in ("slice1d", "roll", "transpose", "stack_concat") or \
+        exhaustive = name in ("slice1d", "roll", "transpose", "stack_concat", "pad") or \
             (name == "reshape" and ctx.thorough)
         ctx.note_batch(name, n, dis, exhaustive=exhaustive, kinds=kinds)
+    pad_symbolic(ctx, prop="C02")
     # de-duplicate broken list (keep it short)
     ctx.broken = sorted(set(ctx.broken))[:50]
 
